@@ -41,6 +41,8 @@ class Ctx:
         self.where = set()
         self.functions = []
         self.clash_name = clash_name
+        self.avoid_in_main = ()    # operators the main graph must not contain (nested-only stratum)
+        self.force_use = []        # outer values every body must consume (nested-only stratum)
 
     def name(self, p="v"):
         self.k += 1
@@ -79,9 +81,9 @@ class Scope:
             return rng.choice(local)
         return rng.choice(cands)
 
-    def emit(self, op, ins, exs, attrs=None, domain="", planted=False):
+    def emit(self, op, ins, exs, attrs=None, domain="", planted=False, names=None):
         ctx = self.ctx
-        outs = [Val(ctx.name("v"), np.asarray(e), planted) for e in exs]
+        outs = [Val(names[k] if names else ctx.name("v"), np.asarray(e), planted) for k, e in enumerate(exs)]
         node = helper.make_node(op, [i.name if isinstance(i, Val) else i for i in ins], [o.name for o in outs],
                                 name=ctx.name("n"), domain=domain, **(attrs or {}))
         if ctx.rng.random() < 0.5:
@@ -176,7 +178,10 @@ class Scope:
     # ---- one random ordinary node
     def random_node(self):
         rng = self.ctx.rng
-        op = rng.choice(["Add", "Sub", "Mul", "Neg", "Relu", "Transpose", "Split", "Concat", "MatMul"])
+        ops = ["Add", "Sub", "Mul", "Neg", "Relu", "Transpose", "Split", "Concat", "MatMul"]
+        if self.kind == "main" and self.ctx.avoid_in_main:
+            ops = [o for o in ops if o not in self.ctx.avoid_in_main]
+        op = rng.choice(ops)
         if op in ("Add", "Sub", "Mul"):
             a = self.pick()
             b = self.pick(lambda v: v.shape == a.shape or v.shape == a.shape[-1:]) or a
@@ -269,6 +274,9 @@ def _body(ctx, outer, shape, depth, n_plants):
     if others and rng.random() < 0.7:
         o2 = rng.choice(others)
         out = sc.emit("Add", [out, o2], [out.ex + o2.ex])[0]
+    for fv in ctx.force_use:
+        if fv.shape == shape:
+            out = sc.emit("Max", [out, fv], [np.maximum(out.ex, fv.ex)])[0]
     return sc, out
 
 
@@ -280,16 +288,16 @@ def _graph_proto(sc, name, inputs, outputs):
     return helper.make_graph(nodes, name, inputs, [_vi(o.name, o.ex) for o in outputs], initializer=[t for t in sc.inits])
 
 
-def _control_flow(sc, depth):
+def _control_flow(sc, depth, v=None, min_plants=0):
     """Append an If or a Loop node to scope `sc` whose bodies use outer-scope values and contain planted instances."""
     ctx, rng = sc.ctx, sc.ctx.rng
-    v = sc.pick()
+    v = v or sc.pick()
     if v is None:
         return None
     shape = v.shape
     if rng.random() < 0.6:
         cond = sc._main().cond
-        t_sc, t_out = _body(ctx, sc, shape, depth, rng.randint(0, 2))
+        t_sc, t_out = _body(ctx, sc, shape, depth, rng.randint(min_plants, 2))
         e_sc, e_out = _body(ctx, sc, shape, depth, rng.randint(0, 2))
         tg = _graph_proto(t_sc, ctx.name("then"), [], [t_out])
         eg = _graph_proto(e_sc, ctx.name("else"), [], [e_out])
@@ -304,7 +312,7 @@ def _control_flow(sc, depth):
     i_n, c_n, v_n = ctx.name("it"), ctx.name("cin"), ctx.name("carry")
     carried = Val(v_n, v.ex.copy())
     b.vals.append(carried)
-    b.grow(rng.randint(0, 2), rng.randint(0, 2))
+    b.grow(rng.randint(0, 2), rng.randint(min_plants, 2))
     if depth < 2 and rng.random() < 0.3:
         _control_flow(b, depth + 1)
     cands = [x for x in b.vals if x.shape == shape and not x.const and x is not carried]
@@ -314,6 +322,9 @@ def _control_flow(sc, depth):
         nxt = b.emit("Add", [nxt, carried], [nxt.ex + carried.ex])[0] if rng.random() < 0.5 else nxt
     else:
         nxt = b.emit("Neg", [carried], [-carried.ex])[0]
+    for fv in ctx.force_use:
+        if fv.shape == shape:
+            nxt = b.emit("Max", [nxt, fv], [np.maximum(nxt.ex, fv.ex)])[0]
     cout = ctx.name("cout")
     b.nodes.append(helper.make_node("Identity", [c_n], [cout], name=ctx.name("n")))
     nodes = _prune(b.nodes, [cout, nxt.name])
@@ -343,7 +354,11 @@ def _function(ctx, main, n_plants):
     return fp, fname, [a, b], out.ex
 
 
-def make_host(rng, plant, *, n_nodes=6, k_plants=2, subgraphs=True, functions=True, clash_name=None, custom_fn=False):
+ROOT_OPS = {"neg": ("Neg",), "sub": ("Sub",), "add": ("Add",), "mul": ("Mul",), "tt": ("Transpose",), "mul1": ("Mul",), "add0": ("Add",),
+            "split": ("Split",), "relu": ("Relu",), "subrelu": ("Relu", "Sub"), "negneg": ("Neg",)}
+
+
+def make_host(rng, plant, *, n_nodes=6, k_plants=2, subgraphs=True, functions=True, clash_name=None, custom_fn=False, nested_only=False):
     """-> (ModelProto, info) ; info = {"planted": k, "where": [...], "inputs": {name: shape|"bool"}}."""
     ctx = Ctx(rng, plant, clash_name)
     main = Scope(ctx, "main")
@@ -354,6 +369,21 @@ def make_host(rng, plant, *, n_nodes=6, k_plants=2, subgraphs=True, functions=Tr
         main.vals.append(v)
         gin.append(v)
     main.cond = "cnd"
+    if nested_only:
+        # every instance lives in an If/Loop body; the enclosing graph owns values literally called val_0 / val_1 (the default
+        # onnx_ir / exporter naming) that the bodies consume
+        ctx.avoid_in_main = ROOT_OPS[plant]
+        v0 = main.emit("Abs", [gin[0]], [np.abs(gin[0].ex)], names=["val_0"])[0]
+        v1 = main.emit("Abs", [gin[1]], [np.abs(gin[1].ex)], names=["val_1"])[0]
+        ctx.force_use = [v0, v1]
+        for _ in range(rng.randint(0, 3)):
+            main.random_node()
+        for tgt in ([v0, v1] if rng.random() < 0.5 else [v0]):
+            _control_flow(main, 1, v=tgt, min_plants=1)
+        ctx.force_use = []
+        for _ in range(rng.randint(0, 2)):
+            main.random_node()
+        k_plants, n_nodes, subgraphs, functions = 0, 0, False, False
     if clash_name:  # an initializer the replacement's new initializer will collide with; it is used by a node
         main.inits.append(numpy_helper.from_array(np.array(3.0, dtype=np.float32), clash_name))
         cv = Val(clash_name, np.array(3.0, dtype=np.float32), const=True)
